@@ -42,3 +42,16 @@ Virt = Struct("Virt", NS, emb="basic.emb", fields=[
 
 Dyn.c20 = False       # array field: element-wise Equals needs loop invariants, not unrolling (not covered)
 ALL = {"Plain": Plain, "Cond": Cond, "Dyn": Dyn, "Virt": Virt}
+
+
+# ---------------------------------------------------------------------------
+# enums (corpus/enums.emb): ordered (declared name, value) pairs exactly as written; the expected C++
+# underlying type is stated independently (declared signedness, smallest of 8/16/32/64 >= maximum_bits)
+from vlib.llvc.corpus import EnumSpec
+
+ENUM_Kind = EnumSpec("Kind", "corpus::enums", "uint64_t",
+                     [("ALPHA", 1), ("BETA", 2), ("ALSO_BETA", 2), ("ALPHABET", 26), ("BIG", 4294967296)], "enums.emb")
+ENUM_Signed = EnumSpec("Signed", "corpus::enums", "int16_t",
+                       [("MINUS_ONE", -1), ("LOW", -32768), ("HIGH", 32767), ("ZERO", 0)], "enums.emb")
+ENUM_Wide = EnumSpec("Wide", "corpus::enums", "uint64_t", [("TOP", 18446744073709551615), ("NONE", 0)], "enums.emb")
+ENUMS = {"Kind": ENUM_Kind, "Signed": ENUM_Signed, "Wide": ENUM_Wide}
